@@ -88,6 +88,11 @@ def gen_stray(rnd, snap, cfg):
         aw = [s for (c, s) in snap["await"] if c == op["cid"]]
         near = [s for s in rest if any(abs(order.index(s) - order.index(a)) == 1 for a in aw if a in order)]
         op["svc"] = rnd.choice(newer if newer and rnd.random() < 0.7 else near if near and rnd.random() < 0.6 else rest)
+        # a table wider than the per-client masks: the entry whose slot number is congruent modulo 32 to an awaited one
+        alias = [order[order.index(a) % 32] for a in aw if a in order and order.index(a) >= 32]
+        alias = [s for s in alias if s in rest]
+        if alias and rnd.random() < 0.8:
+            op["svc"] = rnd.choice(alias)
     return op
 
 
@@ -144,7 +149,7 @@ class StrayProfile:
 
     def gen_run(self, rnd, opts, tier, tag):
         o = dict(opts)
-        o.update({"min_svc": 1, "snap": True, "w_audit": 0, "prop": "C04"})
+        o.update({"min_svc": 1, "snap": True, "w_audit": 0, "prop": "C04", "p_wide": 0.03})
         if "faults" not in o:
             fk = [f for f in proto.FAULT_KINDS if f not in ("cfg_torn", "cfg_garbage", "cfg_missing", "cfg_eio", "cfg_burst",
                                                              "cfg_same", "cfg_timeout", "extreme_ids") and rnd.random() < 0.5]
@@ -273,8 +278,13 @@ class InterleaveProfile:
 
         def do_barrier():
             ok = ex.apply(barrier)
-            g.svc_now = dict(barrier["services"])
-            g.rules_now = json.loads(json.dumps(barrier.get("rules", {})))
+            last = barrier
+            for nxt in barrier.get("then", []):
+                ok = ok and ex.apply(nxt)
+                last = nxt
+                g.svc_ever |= set(nxt["services"])
+            g.svc_now = dict(last["services"])
+            g.rules_now = json.loads(json.dumps(last.get("rules", {})))
             g.svc_ever |= set(barrier["services"])
             return ok
         while True:
@@ -397,7 +407,18 @@ class InterleaveProfile:
             svcs = {}
         if rules and rnd.random() < 0.3:
             del rules[rnd.choice(sorted(rules))]
-        return {"op": "reload", "how": "tables", "services": svcs, "rules": rules, "omit": []}
+        bar = {"op": "reload", "how": "tables", "services": svcs, "rules": rules, "omit": []}
+        if rnd.random() < 0.3 and svcs != cfg["services"]:
+            # the operator undoes the edit (or part of it) with the very next reload: a service that went comes
+            # back, possibly with another protocol, before any client has had another event
+            back = dict(cfg["services"])
+            if rnd.random() < 0.3:
+                back.update(svcs)
+            if rnd.random() < 0.2 and back:
+                back[rnd.choice(sorted(back))] = rnd.choice(proto.SVC_TYPES)
+            bar["then"] = [{"op": "reload", "how": "tables", "services": back,
+                            "rules": json.loads(json.dumps(cfg.get("rules", {}))) if rnd.random() < 0.5 else rules, "omit": []}]
+        return bar
 
     def merge(self, rnd, convs, after=None, ended=None, bars=None):
         """Random interleaving preserving each conversation's order, with
@@ -470,6 +491,8 @@ class InterleaveProfile:
             if k == -1:
                 before = len(ex.res.outputs)
                 ok = ex.apply(barrier)
+                for nxt in barrier.get("then", []):
+                    ok = ok and ex.apply(nxt)       # further edits follow at once: no client event in between
                 lines = []
                 for o in ex.res.outputs[before:]:
                     lines += (o or [])
